@@ -124,6 +124,7 @@ theorem step_push (s : St) (op : Op) (o : List Del) (p : Pushed)
   | close => simp [step, closeAll] at h
   | pick k => simp only [step, doPick] at h; split at h <;> simp at h
   | wrappick st k => simp only [step, doPick] at h; split at h <;> simp at h
+  | pickold g k => simp only [step, doPickOld] at h; split at h <;> simp at h
 
 /-! ### E. picks -/
 
@@ -420,6 +421,55 @@ theorem inv_step (s : St) (h : Inv s) (op : Op) (o : List Del) : Inv (step s op 
     intro hi; simp at hi
   | pick k => exact inv_doPick s h none k
   | wrappick st k => exact inv_doPick s h (some st) k
+  | pickold g k =>
+    simp only [step, doPickOld]
+    cases s.olds[g]? with
+    | none => exact h
+    | some pw => exact ⟨h.eps, h.last, h.cur⟩
+
+/-- superseded pickers stay what they were when they were pushed -/
+def OldsOk (s : St) : Prop := ∀ pw ∈ s.olds, pickersOk pw.1 = true ∧ (pw.1.childStates.map (·.ep)).Nodup
+
+theorem oldsOk_retire (s : St) (h : Inv s) (ho : OldsOk s) : ∀ pw ∈ retire s, pickersOk pw.1 = true ∧ (pw.1.childStates.map (·.ep)).Nodup := by
+  intro pw hm
+  unfold retire at hm
+  cases hl : s.last with
+  | none => rw [hl] at hm; exact ho pw hm
+  | some p =>
+    rw [hl] at hm
+    rcases List.mem_cons.mp hm with rfl | hm
+    · exact h.last p hl
+    · exact ho pw hm
+
+theorem oldsOk_step (s : St) (h : Inv s) (ho : OldsOk s) (op : Op) (o : List Del) : OldsOk (step s op o).1 := by
+  cases op with
+  | update r es => simp only [step, closeAll]; exact oldsOk_retire s h ho
+  | cs id st pk r =>
+    simp only [step]
+    split
+    · exact ho
+    · exact oldsOk_retire s h ho
+  | reserr r => simp only [step]; exact oldsOk_retire s h ho
+  | exitidle r => simp only [step]; exact oldsOk_retire s h ho
+  | close => simp only [step, closeAll]; exact ho
+  | pick k => simp only [step, doPick]; split <;> exact ho
+  | wrappick st k => simp only [step, doPick]; split <;> exact ho
+  | pickold g k =>
+    simp only [step, doPickOld]
+    cases hg : s.olds[g]? with
+    | none => exact ho
+    | some pw =>
+      intro q hq
+      rcases List.mem_or_eq_of_mem_set hq with hq | hq
+      · exact ho q hq
+      · subst hq
+        exact ho pw (List.mem_of_getElem? hg)
+
+theorem inv_olds_run (s : St) (h : Inv s) (ho : OldsOk s) (ops : List (Op × List Del)) :
+    Inv (run s ops) ∧ OldsOk (run s ops) := by
+  induction ops generalizing s with
+  | nil => exact ⟨h, ho⟩
+  | cons x t ih => obtain ⟨op, o⟩ := x; exact ih _ (inv_step s h op o) (oldsOk_step s h ho op o)
 
 theorem inv_run (s : St) (h : Inv s) (ops : List (Op × List Del)) : Inv (run s ops) := by
   induction ops generalizing s with
